@@ -116,6 +116,9 @@ func VH_C03_P1() {
 	vf.Assert("C03.p1.open", err == nil)
 	drain := vf.Param("DRAIN", 1) == 1
 	stall := vf.Param("STALL", 0) == 1
+	if vf.Param("ZONE", 0) == 2 {
+		vf.Record("zone", 1) // the whole workload is the zone (recovery phases run under the default schedule)
+	}
 	if stall {
 		// a flusher that is slower than the writers: it cannot enter the level manager until
 		// the workload is over, so Close finds flushes pending
